@@ -92,6 +92,7 @@ func Solve(o *Obligation, cfg *SolverCfg, idx int) {
 		o.Status, o.Solver = "discharged", "simplifier"
 		return
 	}
+	candText := ""
 	// Cheap sound stages first (dropping hypotheses and abstracting non-linear sub-terms by fresh
 	// constants both only weaken the hypotheses, so `unsat` is a valid discharge):
 	//   qf+nl : quantified hypotheses dropped, non-linear terms abstracted
@@ -131,6 +132,7 @@ func Solve(o *Obligation, cfg *SolverCfg, idx int) {
 		// that match their triggers (manual E-matching; instances are consequences)
 		if nq > 0 {
 			ground := append(append([]*Term{}, qf...), negGround)
+			instKeepSiblings = o.Kind == "preimage"
 			qf = append(qf, instantiateForalls(quants, ground)...)
 		}
 		allH := append(append([]*Term{}, o.Hyps...), neg)
@@ -143,6 +145,18 @@ func Solve(o *Obligation, cfg *SolverCfg, idx int) {
 		}
 		if abs, n := abstractNonlinear(allH); n > 0 {
 			vars = append(vars, variant{"nl-abstracted", (&Script{Asserts: abs, RecDefs: o.Recs}).Render()})
+		}
+		if o.Pre != nil {
+			// a model of the weakened problem is only a candidate: it counts when its replay on the
+			// real code shows the two digests equal (covers) / different (excludes)
+			// prefer small counterexamples: every slice length mentioned is at most 2
+			small := append(append([]*Term{}, qfH...), o.Pre.Cand...)
+			collect(qfH, func(t *Term) {
+				if t.Op == "sel" && strings.HasSuffix(t.Name, ".len") && t.Sort == SInt {
+					small = append(small, mk("<=", "", SBool, nil, t, IntC(2)))
+				}
+			})
+			candText = (&Script{Asserts: small, Want: o.Inputs, RecDefs: o.Recs}).Render()
 		}
 		renderMu.Unlock()
 		for vi, v := range vars {
@@ -273,6 +287,18 @@ func Solve(o *Obligation, cfg *SolverCfg, idx int) {
 			o.Note = firstLines(results[0].out, 3)
 		}
 		o.Solver = strings.Join(notes, ",")
+		if candText != "" && o.Status == "unknown" {
+			fc := base + ".cand.smt2"
+			os.WriteFile(fc, []byte(candText), 0o644)
+			r := runSolver(context.Background(), "z3-new", fc, 10000, cfg.Seed)
+			if !cfg.Keep {
+				os.Remove(fc)
+			}
+			if r.status == "sat" {
+				o.Model = modelText(r.out)
+				o.Note = "candidate counterexample (model of the quantifier-free weakening; believed only if its replay reproduces)"
+			}
+		}
 	}
 }
 
@@ -282,8 +308,8 @@ func modelText(out string) string {
 		return ""
 	}
 	m := strings.TrimSpace(out[i+1:])
-	if len(m) > 20000 {
-		m = m[:20000] + "..."
+	if len(m) > 400000 {
+		m = m[:400000] + "..."
 	}
 	return m
 }
@@ -394,6 +420,11 @@ func hasQuantifier(t *Term) bool {
 // (positions: top-level forall, possibly under implications/conjunctions) obtained by matching
 // trigger terms (select / uninterpreted applications containing the bound variable) against
 // ground terms of the context.
+// instKeepSiblings: also keep the quantifier-free siblings of quantified conjuncts that sit under
+// implications / ite (set for preimage obligations, whose hypotheses are nested that way; for
+// other obligations the extra facts only slow the cheap stages down).  Guarded by renderMu.
+var instKeepSiblings bool
+
 func instantiateForalls(hyps []*Term, ground []*Term) []*Term {
 	// index ground select/app terms by head
 	type gterm struct{ t *Term }
@@ -431,7 +462,7 @@ func instantiateForalls(hyps []*Term, ground []*Term) []*Term {
 	depth := 0
 	var visit func(h *Term, guard []*Term)
 	visit = func(h *Term, guard []*Term) {
-		if depth > 0 && !hasQuantifier(h) {
+		if (depth > 0 || (len(guard) > 0 && instKeepSiblings)) && !hasQuantifier(h) {
 			// quantifier-free part of an instance
 			full := Implies(And(guard...), h)
 			if !seen[full] && !full.IsTrue() {
@@ -447,6 +478,11 @@ func instantiateForalls(hyps []*Term, ground []*Term) []*Term {
 			}
 		case "=>":
 			visit(h.Args[1], append(append([]*Term{}, guard...), h.Args[0]))
+		case "ite":
+			if h.Sort == SBool {
+				visit(h.Args[1], append(append([]*Term{}, guard...), h.Args[0]))
+				visit(h.Args[2], append(append([]*Term{}, guard...), Not(h.Args[0])))
+			}
 		case "forall":
 			if len(h.Bnd) != 1 {
 				return
